@@ -42,7 +42,10 @@ RULE = ("(a) histories of 0-8 dated entries (null values, 'expected' placeholder
         "last, anywhere} and from the boundaries of earlier updates (so equal, adjacent, enclosing, enclosed, "
         "before-first and after-last all occur), plus ill-formed calls (period together with start, no start, "
         "eternity, stop before start); queried at every entry date and update boundary +-1 day after every "
-        "step; (b) trees of nodes / leaves / scales whose members start at different dates, evaluated at every "
+        "step, each query date written in one of the accepted spellings of that day (ISO string, Instant, date, "
+        "ISO week date 'YYYY-Www-D', day/month Period starting there, tuple, list, and 'YYYY-Www' / 'YYYY-MM' / "
+        "'YYYY' / int when they denote that very day; converted with datetime only) rotating over positions and "
+        "steps - the answer must not depend on the spelling; (b) trees of nodes / leaves / scales whose members start at different dates, evaluated at every "
         "date of the tree +-1 day; (c) such a tree read at <= 12 of those dates (always including a date inside "
         "every later update's span), then 1-4 rounds of [1-2 update() calls on leaves reached through the nodes "
         "(children by name, scale brackets by position and field), read again at the same dates through "
@@ -239,11 +242,37 @@ def mk_period(p):
     return str(per) if as_str else per
 
 
+def spellings(q):
+    """Every accepted way of writing the day q ('YYYY-MM-DD') as an instant, computed with datetime only:
+    the ISO string, an Instant, a datetime.date, the ISO week date with weekday, day / month periods
+    starting that day, (y, m, d) tuples and lists; and, when they denote that very day, 'YYYY-Www' (a
+    Monday), 'YYYY-MM' and (y, m) (first of a month), 'YYYY', the int and (y,) (1 January)."""
+    d = D(q)
+    wy, ww, wd = d.isocalendar()
+    inst = Instant((d.year, d.month, d.day))
+    special = []
+    if wd == 1:
+        special.append(f"{wy:04d}-W{ww:02d}")
+    if d.day == 1:
+        special += [f"{d.year:04d}-{d.month:02d}", (d.year, d.month)]
+        if d.month == 1:
+            special += [f"{d.year:04d}", d.year, (d.year,)]
+    return special + [q, inst, f"{wy:04d}-W{ww:02d}-{wd}", d, Period((DateUnit.DAY, inst, 1)),
+                      (d.year, d.month, d.day), f"{wy:04d}-W{ww:02d}-{wd}", Period((DateUnit.MONTH, inst, 3)),
+                      [d.year, d.month, d.day]]
+
+
+def spell(q, n):
+    """The n-th spelling of the day q (the answer must not depend on which one is used)."""
+    opts = spellings(q)
+    return opts[n % len(opts)]
+
+
 def snapshot(p, queries, k):
     vl = [[O(x.instant_str), v4(x.value)] for x in p.values_list]
     ans = []
     for j, q in enumerate(queries):
-        arg = mk_instant(q) if (j + k) % 3 == 0 else q
+        arg = spell(q, 2 * j + 5 * k)
         r = p.get_at_instant(arg) if (j + k) % 2 else p(arg)
         ans.append(v4(r))
     return [vl, ans]
@@ -293,7 +322,8 @@ def run_treeops(c):
         if op["o"] == "read":
             row = []
             for j, q in enumerate(c["queries"]):
-                at = root(q) if (j + k) % 2 else root.get_at_instant(mk_instant(q))
+                arg = spell(q, 3 * j + k + len(c["queries"]))
+                at = root(arg) if (j + k) % 2 else root.get_at_instant(arg)
                 row.append(view(at))
             out.append(row)
             continue
@@ -330,7 +360,8 @@ def run_impl(c):
     root = ParameterNode("root", data=tree_data(c["tree"]))
     out = []
     for j, q in enumerate(c["queries"]):
-        at = root(q) if j % 2 else root.get_at_instant(mk_instant(q))
+        arg = spell(q, 2 * j + len(c["queries"]))
+        at = root(arg) if j % 2 else root.get_at_instant(arg)
         out.append(view(at))
     return out
 
@@ -405,9 +436,9 @@ def oracle_param(c, o):
     if not strictly_decreasing(snap[0]):
         return f"order: values_list after construction is not strictly decreasing: {[iso(k) for k, _ in snap[0]]}"
     cur = [naive_value(c["entries"], q) for q in qs]
-    for q, exp, got in zip(c["queries"], cur, snap[1]):
+    for j, (q, exp, got) in enumerate(zip(c["queries"], cur, snap[1])):
         if exp != got:
-            return (f"latest: value at {q} is {got} (x4), the latest entry on or before that date says {exp} (x4); "
+            return (f"latest: value at {q} (asked as {spell(q, 2 * j)!r}) is {got} (x4), the latest entry on or before that date says {exp} (x4); "
                     f"entries {[(e['d'], e['k'], e.get('v')) for e in c['entries']]}")
     ordered = True
     for n, (u, step) in enumerate(zip(c["ups"], o[1:])):
@@ -426,12 +457,13 @@ def oracle_param(c, o):
         if ordered and not strictly_decreasing(step[0]):
             return f"order: values_list after update {n} {u} is not strictly decreasing: {[iso(k) for k, _ in step[0]]}"
         new = []
-        for q, qd, before, got in zip(c["queries"], qs, cur, step[1]):
+        for j, (q, qd, before, got) in enumerate(zip(c["queries"], qs, cur, step[1])):
             inside = s <= qd and (e is None or qd <= e)
             exp = v4(u["v"]) if inside else before
             if got != exp:
                 where = "inside" if inside else "outside"
-                return (f"span: after update {n} {u} the value at {q} ({where} the span) is {got} (x4), "
+                return (f"span: after update {n} {u} the value at {q} (asked as {spell(q, 2 * j + 5 * (n + 1))!r}; "
+                        f"{where} the span) is {got} (x4), "
                         f"expected {exp} (x4)")
             new.append(exp)
         cur = new
